@@ -18,7 +18,9 @@ func genAtom(r *rand.Rand, depth int, o entryOpts) string {
 		if o.lowerOnly {
 			return pick(r, []string{"a", "b", "c", "d", "x", "y", "foo", "bar", "ab", "0", "1", "_", "-", "/", ":", " "})
 		}
-		return pick(r, []string{"a", "b", "c", "d", "x", "y", "foo", "bar", "ab", "0", "1", "_", "-", "/", ":", " ", "A", "Z", "Foo"})
+		// upper-case letters are drawn from letters that never occur in lower case anywhere in the grammar, so that
+		// a class of both cases of one letter (known finding D24) does not arise by accident
+		return pick(r, []string{"a", "b", "c", "d", "x", "y", "foo", "bar", "ab", "0", "1", "_", "-", "/", ":", " ", "V", "J", "VJ"})
 	}
 	switch weighted(r, []int{30, 8, 8, 6, 4, 3, 3, 6, 6}) {
 	case 0:
@@ -127,6 +129,7 @@ func indent(r *rand.Rand) string {
 }
 
 type progGen struct {
+	inCmd  bool
 	r      *rand.Rand
 	o      progOpts
 	p      *Program
@@ -147,20 +150,20 @@ func (g *progGen) entry() string {
 	return e
 }
 
-func (g *progGen) includeFile(depth int) string {
+func (g *progGen) includeFile(depth int, wordList bool) string {
 	g.nFile++
 	name := fmt.Sprintf("inc%d", g.nFile)
 	var lines []string
 	n := 1 + g.r.Intn(5)
-	if chance(g.r, 0.25) {
+	if !wordList && chance(g.r, 0.25) {
 		lines = append(lines, "##!^ "+genEntry(g.r, g.eo))
 		g.count("include-prefix")
 	}
-	if chance(g.r, 0.2) {
+	if !wordList && chance(g.r, 0.2) {
 		lines = append(lines, "##!$ "+genEntry(g.r, g.eo))
 		g.count("include-suffix")
 	}
-	if chance(g.r, 0.2) {
+	if !g.inCmd && chance(g.r, 0.2) {
 		lines = append(lines, "##!> define incdef"+fmt.Sprint(g.nFile)+" "+pick(g.r, []string{"[a-z]+", "x", "\\d{2}"}))
 		lines = append(lines, "q{{incdef"+fmt.Sprint(g.nFile)+"}}")
 	}
@@ -174,7 +177,7 @@ func (g *progGen) includeFile(depth int) string {
 			lines = append(lines, "")
 		case 3:
 			if depth > 0 {
-				lines = append(lines, "##!> include "+g.includeFile(depth-1))
+				lines = append(lines, "##!> include "+g.includeFile(depth-1, wordList))
 				g.count("nested-include")
 			}
 		}
@@ -192,6 +195,9 @@ func (g *progGen) includeFile(depth int) string {
 
 func (g *progGen) items(depth int, inCmd bool) []string {
 	var lines []string
+	saved := g.inCmd
+	g.inCmd = inCmd
+	defer func() { g.inCmd = saved }()
 	n := 1 + g.r.Intn(g.o.maxItems)
 	for i := 0; i < n; i++ {
 		ind := indent(g.r)
@@ -238,7 +244,8 @@ func (g *progGen) items(depth int, inCmd bool) []string {
 		case 6:
 			if g.o.includes {
 				kind := weighted(g.r, []int{5, 3, 3})
-				f := g.includeFile(1)
+				// include-except works on word lists (C06): its files carry no prefix/suffix lines
+				f := g.includeFile(1, kind == 2)
 				switch kind {
 				case 0:
 					lines = append(lines, ind+"##!> include "+f)
@@ -247,10 +254,10 @@ func (g *progGen) items(depth int, inCmd bool) []string {
 					lines = append(lines, ind+"##!> include "+f+" -- "+pick(g.r, []string{"@ ~", "~ @", "@ \"\"", "@ ~ ~ x", "oo 00 ar AR", "@ x @ y"}))
 					g.count("include-suffix-replacement")
 				case 2:
-					x1 := g.includeFile(0)
+					x1 := g.includeFile(0, true)
 					ex := x1
 					if chance(g.r, 0.4) {
-						ex += " " + g.includeFile(0)
+						ex += " " + g.includeFile(0, true)
 					}
 					l := ind + "##!> include-except " + f + " " + ex
 					if chance(g.r, 0.3) {
